@@ -9,6 +9,8 @@ import (
 	"math"
 	"math/big"
 	"os"
+	"regexp"
+	"strconv"
 	"strings"
 
 	"golang.org/x/tools/go/ssa"
@@ -292,6 +294,27 @@ func (i *interpreter) intercept(caller *frame, callpos token.Pos, fn *ssa.Functi
 				return mkSymBool(w, tOr(a, b)), true
 			}
 			return mkSymBool(w, tImplies(a, b)), true
+		case "verifRegexSearch":
+			// verifRegexSearch(pattern, s): does the regular expression find a match in s (search semantics)
+			pat := argStr(args[0])
+			if _, cerr := regexp.Compile(pat); cerr != nil {
+				// an expression the proxy cannot compile matches nothing
+				w.note("invalid regular expression treated as matching nothing: " + pat)
+				return false, true
+			}
+			rl, err := regexToRegLan(pat)
+			if err != nil {
+				panic(unmodelled{"regex " + strconv.Quote(pat) + ": " + err.Error()})
+			}
+			st, ok := strTermOf(args[1])
+			if !ok {
+				panic(engineError{"verifRegexSearch: subject is not a string"})
+			}
+			if st.cst {
+				m, _ := regexp.MatchString(pat, args[1].(string))
+				return m, true
+			}
+			return mkSymBool(w, mk("str.in_re", sBool, st, rl)), true
 		case "verifThreads":
 			return len(m.threads), true
 		case "verifBlocked":
